@@ -642,6 +642,60 @@ func c08B4(p *Prog, r *Report, t *TaintEngine) {
 
 // ---------------------------------------------------------------- B2
 
+// c08FuncTargets: the module functions / function literals a function-typed value may be: literals and
+// functions directly, values kept in locals / captured variables, and — for a function-typed parameter of an
+// unexported function that is not used as a value — whatever every call site passes.
+func c08FuncTargets(p *Prog, lk *c08LockCtx, v ssa.Value, depth int) ([]*ssa.Function, bool) {
+	if depth > 4 {
+		return nil, false
+	}
+	origins, ok := funcValueOrigins(v, 0)
+	if !ok {
+		return nil, false
+	}
+	var out []*ssa.Function
+	for _, o := range origins {
+		switch x := o.(type) {
+		case *ssa.Function:
+			if !p.funcSet[origin(x)] {
+				return nil, false
+			}
+			out = append(out, origin(x))
+		case *ssa.MakeClosure:
+			f, _ := x.Fn.(*ssa.Function)
+			if f == nil || !p.funcSet[origin(f)] {
+				return nil, false // bound method values etc.: parameters shifted, not followed
+			}
+			out = append(out, origin(f))
+		case *ssa.Parameter:
+			w := x.Parent()
+			idx := -1
+			for i, pa := range w.Params {
+				if pa == x {
+					idx = i
+				}
+			}
+			if idx < 0 || isExportedFunc(w) || len(lk.uses[origin(w)]) > 0 || len(lk.sites[origin(w)]) == 0 {
+				return nil, false
+			}
+			for _, cs := range lk.sites[origin(w)] {
+				args := cs.Common().Args
+				if idx >= len(args) {
+					return nil, false
+				}
+				t2, ok := c08FuncTargets(p, lk, args[idx], depth+1)
+				if !ok {
+					return nil, false
+				}
+				out = append(out, t2...)
+			}
+		default:
+			return nil, false
+		}
+	}
+	return out, len(out) > 0
+}
+
 func c08IsContainerRef(t types.Type) bool {
 	switch t.Underlying().(type) {
 	case *types.Map, *types.Slice, *types.Pointer:
@@ -699,7 +753,11 @@ func c08FollowGuarded(p *Prog, lk *c08LockCtx, v ssa.Value, fn *ssa.Function, de
 				continue
 			}
 			cell, ok := x.Addr.(*ssa.Alloc)
-			if !ok {
+			if fv, isFV := x.Addr.(*ssa.FreeVar); isFV {
+				// assigned to a variable of the enclosing function
+				cell, ok = resolveFreeVar(fv).(*ssa.Alloc)
+			}
+			if !ok || cell == nil {
 				*unk = append(*unk, "the variable's map/slice is stored into another object "+where(rr))
 				continue
 			}
@@ -720,7 +778,7 @@ func c08FollowGuarded(p *Prog, lk *c08LockCtx, v ssa.Value, fn *ssa.Function, de
 					}
 				}
 			}
-			loads(cell, fn)
+			loads(cell, cell.Parent())
 		case *ssa.Return:
 			for j, res := range x.Results {
 				if res != v {
@@ -767,8 +825,8 @@ func c08FollowGuarded(p *Prog, lk *c08LockCtx, v ssa.Value, fn *ssa.Function, de
 				}
 				continue
 			}
-			if _, isCall := rr.(*ssa.Call); !isCall {
-				*unk = append(*unk, "the variable's map/slice is handed to a deferred call / goroutine "+where(rr))
+			if _, isDefer := rr.(*ssa.Defer); isDefer {
+				*unk = append(*unk, "the variable's map/slice is handed to a deferred call "+where(rr))
 				continue
 			}
 			add(c08Acc{in: rr, fn: fn, what: "the reference is passed to " + callDesc(x)})
@@ -776,6 +834,20 @@ func c08FollowGuarded(p *Prog, lk *c08LockCtx, v ssa.Value, fn *ssa.Function, de
 				for k, a := range cc.Args {
 					if a == v && k < len(cal.Params) {
 						c08FollowGuarded(p, lk, cal.Params[k], cal, depth+1, seen, add, unk)
+					}
+				}
+			} else if !cc.IsInvoke() && staticCallee(x) == nil {
+				// a call through a function value: follow the reference into every function the value may be
+				targets, ok := c08FuncTargets(p, lk, cc.Value, 0)
+				if !ok {
+					*unk = append(*unk, "the variable's map/slice is passed to a function value whose targets are not resolved "+where(rr))
+					continue
+				}
+				for _, tg := range targets {
+					for k, a := range cc.Args {
+						if a == v && k < len(tg.Params) {
+							c08FollowGuarded(p, lk, tg.Params[k], tg, depth+1, seen, add, unk)
+						}
 					}
 				}
 			}
@@ -1518,6 +1590,9 @@ func (c *c08LockCtx) held(in ssa.Instruction, lock string) Mode {
 		if x := c.entryExtra(fn)[lock]; x > m {
 			m = x
 		}
+		if x := c.paramHeld(in)[lock]; x > m {
+			m = x
+		}
 	}
 	return m
 }
@@ -1530,8 +1605,71 @@ func (c *c08LockCtx) heldAll(in ssa.Instruction) LS {
 				out[id] = m
 			}
 		}
+		for id, m := range c.paramHeld(in) {
+			if m > out[id] {
+				out[id] = m
+			}
+		}
 	}
 	return out
+}
+
+// paramHeld: locks that the function of in received as parameters and holds at in, resolved at EVERY call
+// site of the function (meet): `withLock(l sync.Locker, ...) { l.Lock(); defer l.Unlock(); <in> }` called
+// with &mu and mu.RLocker() holds mu in read mode at <in>.
+func (c *c08LockCtx) paramHeld(in ssa.Instruction) LS {
+	w := in.Parent()
+	if w == nil {
+		return nil
+	}
+	hasLockParam := false
+	for _, pa := range w.Params {
+		if c08LockParamKind(pa.Type()) {
+			hasLockParam = true
+		}
+	}
+	if !hasLockParam || isExportedFunc(w) || len(c.uses[origin(w)]) > 0 {
+		return nil
+	}
+	ff := c.paramLockFlow(w)
+	st, reach := ff.Before(in)
+	if !reach || st == 0 {
+		return nil
+	}
+	var acc LS
+	for _, cs := range c.sites[origin(w)] {
+		call, ok := cs.(*ssa.Call)
+		if !ok {
+			return nil
+		}
+		ls := LS{}
+		for j := range w.Params {
+			if j >= 30 || j >= len(call.Call.Args) {
+				break
+			}
+			bits := (st >> (2 * uint(j))) & 3
+			if bits == 0 {
+				continue
+			}
+			id, lockMode, ok := c08ResolveLockArg(call.Call.Args[j])
+			if !ok {
+				continue
+			}
+			m := ModeR
+			if bits&1 != 0 {
+				m = lockMode
+			}
+			if m > ls[id] {
+				ls[id] = m
+			}
+		}
+		if acc == nil {
+			acc = ls
+		} else {
+			acc = meetLS(acc, ls)
+		}
+	}
+	return acc
 }
 
 // entryExtra: locks held whenever fn runs that the lockset engine does not see.
@@ -1743,10 +1881,38 @@ func (c *c08LockCtx) wrapperCtx(w *ssa.Function, k int, cs *ssa.Call) LS {
 			continue
 		}
 		inv, ok := r.(*ssa.Call)
-		if !ok || inv.Call.Value != ssa.Value(pa) {
-			return LS{} // passed on, stored, started as a goroutine, deferred: not followed
+		if !ok {
+			return LS{} // stored, started as a goroutine, deferred: not followed
+		}
+		var fwd LS
+		if inv.Call.Value != ssa.Value(pa) {
+			// passed on to another same-module function that runs it: that function's context adds to ours
+			w2 := staticCallee(inv)
+			if w2 == nil || !c.p.funcSet[w2] || inv.Call.IsInvoke() || c.inprog[origin(w2)] {
+				return LS{}
+			}
+			c.inprog[origin(w2)] = true
+			for k2, a := range inv.Call.Args {
+				if a == ssa.Value(pa) && k2 < len(w2.Params) {
+					x := c.wrapperCtx(w2, k2, inv)
+					if fwd == nil {
+						fwd = x
+					} else {
+						fwd = meetLS(fwd, x)
+					}
+				}
+			}
+			delete(c.inprog, origin(w2))
+			if fwd == nil {
+				return LS{}
+			}
 		}
 		ls := c.heldAll(inv)
+		for id, m := range fwd {
+			if m > ls[id] {
+				ls[id] = m
+			}
+		}
 		ff := c.paramLockFlow(w)
 		if st, reach := ff.Before(inv); reach && st != 0 {
 			for j := range w.Params {
